@@ -8,6 +8,7 @@ type Spec struct {
 	Outside     string
 	Assumptions []string
 	Witness     int
+	Labels      func(label string) bool // which assertion labels belong to this property (nil = all)
 }
 
 func (s *Spec) maxWitness(tier string) int {
